@@ -163,7 +163,8 @@ Theorem C12_operator_numpy :
     else None.
 Proof. exact @operator_numpy. Qed.
 
-(** an empty Vector operand always panics (its 1 x 0 promotion is refused by [Matrix::new]) *)
+(** an empty Vector operand always panics (its 1 x 0 promotion is refused by [Matrix::new]; the repaired
+    [Matrix::new] accepts only ONE shape with a zero dimension, 0 x 0 on empty data, so this is unchanged) *)
 Theorem C12_empty_vector_panics :
   forall (T : Type) (O : Ops T) (row : impl_row) (self other : value T),
     In row impl_rows ->
@@ -186,3 +187,36 @@ Proof.
   exists row. rewrite Hs, Ho. cbv [denotes wf_mat nr nc dat length value_has_type is_vec_ty negb].
   repeat split; auto; discriminate.
 Qed.
+
+(** ** The empty 0 x 0 matrix ([Matrix::empty()]; outside the property's quantifier, which starts at 1 x 1).
+    Since the repair of the C04 finding [empty-matrix:value-form-panics] ([reshape_mut] accepts the request 0 x 0 on
+    empty data) [Matrix::new] no longer refuses it, and broadcasting follows NumPy's rule for the shape (0, 0): it is
+    compatible with (0, 0) and with (1, 1) only, and the result is the empty matrix (a dimension of extent 0 against
+    extent 1 gives extent 0 -- "element-wise maximum" is the rule for positive extents); against every other
+    well-formed operand the operator panics.  (On the original code all of these panicked.) *)
+Theorem C12_matrix_new_accepts :
+  forall (T : Type) (a : list T) (r c : nat),
+    matrix_new a r c = (if new_ok (length a) r c then Some (mkmat r c a) else None) /\
+    (new_ok (length a) r c = true <-> (0 < r /\ 0 < c /\ r * c = length a) \/ (r = 0 /\ c = 0 /\ length a = 0)).
+Proof. exact @matrix_new_accepts. Qed.
+
+Theorem C12_empty_matrix_broadcast :
+  forall (T : Type) (op : T -> T -> T),
+    broadcast op (mkmat 0 0 []) (mkmat 0 0 []) = Some (mkmat 0 0 []) /\
+    forall m : mat T, wf_mat m ->
+      broadcast op (mkmat 0 0 []) m = (if (nr m =? 1) && (nc m =? 1) then Some (mkmat 0 0 []) else None) /\
+      broadcast op m (mkmat 0 0 []) = (if (nr m =? 1) && (nc m =? 1) then Some (mkmat 0 0 []) else None).
+Proof. exact @empty_matrix_broadcast. Qed.
+
+(** closure: on operands that are well formed or empty, a result is well formed or empty *)
+Theorem C12_broadcast_closed_wf0 :
+  forall (T : Type) (op : T -> T -> T) (m1 m2 r : mat T),
+    wf_mat0 m1 -> wf_mat0 m2 -> broadcast op m1 m2 = Some r -> wf_mat0 r.
+Proof. exact @broadcast_wf0. Qed.
+
+Example C12_example_empty_matrix :
+  broadcast Z.sub (mkmat 0 0 []) (mkmat 1 1 [5%Z]) = Some (mkmat 0 0 []) /\
+  broadcast Z.sub (mkmat 3 3 [1; 2; 3; 4; 5; 6; 7; 8; 9]%Z) (mkmat 0 0 []) = None /\
+  broadcast Z.sub (mkmat 0 0 []) (mkmat 1 3 [1; 2; 3]%Z) = None /\
+  vec_to_matrix (@nil Z) = None /\ matrix_new (@nil Z) 0 3 = None /\ matrix_new (@nil Z) 0 0 = Some (mkmat 0 0 []).
+Proof. repeat split. Qed.
